@@ -8,7 +8,7 @@
 From Coq Require Import List NArith ZArith Bool Lia Sorted Arith.
 From Coq Require Import ZifyBool ZifyN ZifyNat.
 From SW Require Import model.NeedleMap proof.EcIndexProofs proof.NeedleMapSearch proof.NeedleMapSec
-  proof.NeedleMapCm.
+  proof.NeedleMapCm proof.NeedleMapRefine.
 Import ListNotations.
 Local Open Scope N_scope.
 Ltac Zify.zify_post_hook ::= Z.div_mod_to_equations.
@@ -266,3 +266,33 @@ Theorem long_index_readers : forall osz head base step n tail ans, ok_osz osz ->
   write_sorted_from_idx osz (encode osz es) = encode osz (sorted_entries es) /\
   metric_from_index_o osz (encode osz es) ans = metric_entries_o es ans.
 Proof. intros. apply ldb_load_encode; assumption. Qed.
+
+(* ---------- non-vacuity example of props/C05.v ---------- *)
+Definition c05_ex : list op :=
+  [Put 4294967301 1099511627775 7%Z; Put 5 1 10%Z; Put 3 4294967296 20%Z; Put 100000 9 30%Z;
+   Del 3 12; Get 3; Get 5; Get 4294967301; Get 8589934597].
+Lemma c05_example_holds :
+  ok_osz 5 /\ keys_ok c05_ex /\ forallb (op_in_range 5) c05_ex = true /\
+  disciplined c05_ex = true /\ trig_empty_put c05_ex = false /\ trig_rewrite c05_ex = false /\
+  length (snd (cm_run 100000 [] c05_ex)) = 3%nat /\
+  fst (cm_run 100000 [] c05_ex) =
+    [RSet 0 0%Z; RSet 0 0%Z; RSet 0 0%Z; RSet 0 0%Z; RDel 20%Z;
+     RGet (Some (3, 4294967296, (-20)%Z)); RGet (Some (5, 1, 10%Z));
+     RGet (Some (4294967301, 1099511627775, 7%Z)); RGet None] /\
+  ref_metric c05_ex = {| m_del := 1; m_file := 4; m_delb := 20; m_fileb := 67; m_max := 4294967301 |}.
+Proof.
+  split; [right; reflexivity|]. split; [repeat constructor; vm_compute; reflexivity|].
+  repeat split; vm_compute; reflexivity.
+Qed.
+
+(* a rewritten history (finding 1's witness): the closed form of the recomputed counters *)
+Definition c05_ex_rewrite : list op :=
+  [Put 1 1 10%Z; Put 1 2 20%Z; Put 2 3 30%Z; Del 2 4; Put 2 5 40%Z].
+Lemma c05_example_rewrite_holds :
+  forallb (op_in_range 4) c05_ex_rewrite = true /\ disciplined c05_ex_rewrite = true /\
+  trig_empty_put c05_ex_rewrite = false /\ trig_rewrite c05_ex_rewrite = true /\
+  ref_metric c05_ex_rewrite = {| m_del := 2; m_file := 4; m_delb := 40; m_fileb := 100; m_max := 2 |} /\
+  reload_metric c05_ex_rewrite (ref_metric c05_ex_rewrite) =
+    {| m_del := 3; m_file := 2; m_delb := 40; m_fileb := 100; m_max := 2 |} /\
+  fill_ok 100000 0 2 100000 = true.
+Proof. repeat split; vm_compute; reflexivity. Qed.
